@@ -89,6 +89,35 @@ def _mentions_param(v, p: str) -> bool:
     return any(x[1] == p or x[1].startswith(p + ".") or x[1].startswith(p + "[") for x in _av.find_all(v, "sym"))
 
 
+def check_generated_model(ctx: Ctx, rule: str, short: str = "cli/gotran2py.py"):
+    """get_code hands the model it was given to the code generator, for every backend: a transformation applied on
+    the way (for one backend only, say) makes the module compute something else than the model defines - and than the
+    other backends compute."""
+    from sa import av as _av
+
+    sm = ctx.sm
+    gc = sm.func(short, "get_code")
+    A = util.AV(ctx)
+    specs = [(None, {})]
+    if short.endswith("gotran2py.py") and "backend" in gc.params:
+        vals = common.enum_values(ctx, "cli/gotran2py.py", "Backend")
+        specs = [(m, {"backend": ("enum", "Backend", m, vals[m])}) for m in vals]
+    op = gc.params[0]
+    for name, args in specs:
+        key = gc.key("model" + (f"::{name}" if name else ""))
+        try:
+            v = A.returned(gc, args)[0]
+        except Exception as e:
+            ctx.undecided(rule, key, f"get_code could not be evaluated ({e})", gc.where())
+            continue
+        ctors = {c for c in _av.find_all(v, "call") if c[1].split(".")[-1] in GENERATORS}
+        if not ctors or _av.has_unk(v):
+            ctx.undecided(rule, key, f"{short}::get_code: the construction of the code generator is not found / understood", gc.where())
+            continue
+        models = {(c[2][0] if c[2] else dict(c[3]).get("ode")) for c in ctors}
+        ctx.check(models == {("sym", op)}, rule, key, "the generator receives the model that was given", f"{short}::get_code" + (f" (backend {name})" if name else "") + f" generates code for `{_av.show(sorted(models, key=repr)[0])[:100] if models else None}`, not for the model it was given: the module computes something else than the model text defines", gc.where())
+
+
 def check_get_code(ctx: Ctx, rule: str, short: str):
     """get_code, read from what it computes (so that the generator may be selected through a table or a helper and the
     snippets collected by a helper): every parameter is consumed; the generator is constructed with remove_unused
@@ -408,6 +437,7 @@ def run(ctx: Ctx):
         for p in main.params:
             ctx.check(p in used, "R18.a", main.key(f"param::{p}"), f"`{p}` is used", f"{short}::main: parameter `{p}` is never used", main.where())
         check_get_code(ctx, "R18.a", short)
+        check_generated_model(ctx, "R18.a", short)
 
     # the per-scheme keyword arguments: delta and stiff_states are honoured for every scheme that takes them
     common.check_scheme_kwargs(ctx, "R18.a", "delta")
